@@ -31,31 +31,90 @@ theorem mkS_eq_reach (s : VMState) (fn : String) (ip : Nat) (rest : List Frame) 
     (stk : List SVal) (mem : List (Int × Val)) (out : World) :
     mkS s (⟨fn, ip⟩ :: rest) mp k stk mem out = reach (baseOf s fn rest mp out) ip k stk mem := rfl
 
+/-! ## Iterators
+
+The iterator table of the VM (`iters`, `nextIter`) is changed by `for` loops only. Runs are stated
+for every iterator table the base state may carry (`withIt s it`), and end in some table `it'`
+with `ItR fr it it'`: without `for` loops (`fr = false`) the same table, otherwise one in which
+the iterators that existed before are untouched. -/
+
+structure ItSt where
+  iters : List (Nat × List Val)
+  next : Nat
+
+def withIt (s : VMState) (it : ItSt) : VMState := { s with iters := it.iters, nextIter := it.next }
+def itOf (s : VMState) : ItSt := ⟨s.iters, s.nextIter⟩
+theorem withIt_itOf (s : VMState) : withIt s (itOf s) = s := rfl
+
+/-- Iterators allocated before (`id < it.next`) are untouched. -/
+def ItLe (it it' : ItSt) : Prop := it.next ≤ it'.next ∧ ∀ j, j < it.next → it'.iters.lookup j = it.iters.lookup j
+
+theorem ItLe.refl (it : ItSt) : ItLe it it := ⟨Nat.le_refl _, fun _ _ => rfl⟩
+theorem ItLe.trans {a b c : ItSt} (h1 : ItLe a b) (h2 : ItLe b c) : ItLe a c :=
+  ⟨Nat.le_trans h1.1 h2.1, fun j hj => (h2.2 j (Nat.lt_of_lt_of_le hj h1.1)).trans (h1.2 j hj)⟩
+
+def ItR (fr : Bool) (it it' : ItSt) : Prop := if fr then ItLe it it' else it' = it
+
+theorem ItR.refl (fr : Bool) (it : ItSt) : ItR fr it it := by
+  unfold ItR; split
+  · exact ItLe.refl it
+  · rfl
+
+theorem ItR.trans {fr : Bool} {a b c : ItSt} (h1 : ItR fr a b) (h2 : ItR fr b c) : ItR fr a c := by
+  unfold ItR at *
+  split
+  · rename_i h; simp only [h, if_true] at h1 h2; exact h1.trans h2
+  · rename_i h; simp only [h, if_false] at h1 h2; rw [h2, h1]
+
+theorem ItR.eq {a b : ItSt} (h : ItR false a b) : b = a := h
+
+theorem ItR.of_le {fr : Bool} {a b : ItSt} (hfr : fr = true) (h : ItLe a b) : ItR fr a b := by
+  unfold ItR; simp only [hfr, if_true]; exact h
+
+/-- **The memory of the VM as the simulation threads it**: the cells and the iterator table. -/
+structure Mem where
+  cells : List (Int × Val)
+  it : ItSt
+
+instance : Coe Mem (List (Int × Val)) := ⟨Mem.cells⟩
+
+def Mem.set (m : Mem) (a : Int) (v : Val) : Mem := { m with cells := memSetL m.cells a v }
+
+@[simp] theorem Mem.set_cells (m : Mem) (a : Int) (v : Val) : (m.set a v).cells = memSetL m.cells a v := rfl
+@[simp] theorem Mem.set_it (m : Mem) (a : Int) (v : Val) : (m.set a v).it = m.it := rfl
+
+/-- The state with the cells and the iterator table of `m`. -/
+def mkSI (s : VMState) (calls : List Frame) (mp : Int) (k : Nat) (stk : List SVal) (m : Mem) (out : World) : VMState :=
+  mkS (withIt s m.it) calls mp k stk m.cells out
+
+theorem mkSI_own (s : VMState) (calls : List Frame) (mp : Int) (k : Nat) (stk : List SVal)
+    (mem : List (Int × Val)) (out : World) : mkSI s calls mp k stk ⟨mem, itOf s⟩ out = mkS s calls mp k stk mem out := rfl
+
 /-- Inside the activation `⟨fn, ·⟩ :: rest` with memory pointer `mp`: from `(ip, stk, mem, out)`
-the VM gets to `(ip', stk', mem', out')` without interrupt or panic. -/
-def Runs (code : Code) (lim : Limits) (s : VMState) (fn : String) (rest : List Frame) (mp : Int)
-    (ip : Nat) (stk : List SVal) (mem : List (Int × Val)) (out : World)
-    (ip' : Nat) (stk' : List SVal) (mem' : List (Int × Val)) (out' : World) : Prop :=
-  ∀ k, ∃ k', execHN code lim k' (mkS s (⟨fn, ip⟩ :: rest) mp k stk mem out) =
-    .next (mkS s (⟨fn, ip'⟩ :: rest) mp (k + k') stk' mem' out')
+the VM gets to `(ip', stk', mem', out')` without interrupt or panic. (`fr` is only carried along.) -/
+def Runs (_fr : Bool) (code : Code) (lim : Limits) (s : VMState) (fn : String) (rest : List Frame) (mp : Int)
+    (ip : Nat) (stk : List SVal) (mem : Mem) (out : World)
+    (ip' : Nat) (stk' : List SVal) (mem' : Mem) (out' : World) : Prop :=
+  ∀ k, ∃ k', execHN code lim k' (mkSI s (⟨fn, ip⟩ :: rest) mp k stk mem out) =
+    .next (mkSI s (⟨fn, ip'⟩ :: rest) mp (k + k') stk' mem' out')
 
 /-- … runs into the fatal interrupt `(kd, msg, sp)` having produced the output `out'`. -/
 def RunsF (code : Code) (lim : Limits) (s : VMState) (fn : String) (rest : List Frame) (mp : Int)
-    (ip : Nat) (stk : List SVal) (mem : List (Int × Val)) (out : World)
+    (ip : Nat) (stk : List SVal) (mem : Mem) (out : World)
     (kd msg : String) (sp : Span) (out' : World) : Prop :=
-  ∀ k, ∃ k' s', execHN code lim k' (mkS s (⟨fn, ip⟩ :: rest) mp k stk mem out) = .intr (.fatal kd msg sp) s' ∧
+  ∀ k, ∃ k' s', execHN code lim k' (mkSI s (⟨fn, ip⟩ :: rest) mp k stk mem out) = .intr (.fatal kd msg sp) s' ∧
     s'.st = { s.st with heap := out'.heap, out := out'.out } ∧ s'.globals = s.globals
 
 section
-variable {code : Code} {lim : Limits} {s : VMState} {fn : String} {rest : List Frame} {mp : Int}
+variable {fr : Bool} {code : Code} {lim : Limits} {s : VMState} {fn : String} {rest : List Frame} {mp : Int}
 
-theorem Runs.refl (ip stk mem out) : Runs code lim s fn rest mp ip stk mem out ip stk mem out :=
+theorem Runs.refl (ip stk mem out) : Runs fr code lim s fn rest mp ip stk mem out ip stk mem out :=
   fun _ => ⟨0, rfl⟩
 
 theorem Runs.trans {ip stk mem out ip1 stk1 mem1 out1 ip2 stk2 mem2 out2}
-    (h1 : Runs code lim s fn rest mp ip stk mem out ip1 stk1 mem1 out1)
-    (h2 : Runs code lim s fn rest mp ip1 stk1 mem1 out1 ip2 stk2 mem2 out2) :
-    Runs code lim s fn rest mp ip stk mem out ip2 stk2 mem2 out2 := by
+    (h1 : Runs fr code lim s fn rest mp ip stk mem out ip1 stk1 mem1 out1)
+    (h2 : Runs fr code lim s fn rest mp ip1 stk1 mem1 out1 ip2 stk2 mem2 out2) :
+    Runs fr code lim s fn rest mp ip stk mem out ip2 stk2 mem2 out2 := by
   intro k
   obtain ⟨k1, e1⟩ := h1 k
   obtain ⟨k2, e2⟩ := h2 (k + k1)
@@ -64,7 +123,7 @@ theorem Runs.trans {ip stk mem out ip1 stk1 mem1 out1 ip2 stk2 mem2 out2}
   simp only [e2, Nat.add_assoc]
 
 theorem Runs.fatal {ip stk mem out ip1 stk1 mem1 out1 kd msg sp out2}
-    (h1 : Runs code lim s fn rest mp ip stk mem out ip1 stk1 mem1 out1)
+    (h1 : Runs fr code lim s fn rest mp ip stk mem out ip1 stk1 mem1 out1)
     (h2 : RunsF code lim s fn rest mp ip1 stk1 mem1 out1 kd msg sp out2) :
     RunsF code lim s fn rest mp ip stk mem out kd msg sp out2 := by
   intro k
@@ -75,42 +134,56 @@ theorem Runs.fatal {ip stk mem out ip1 stk1 mem1 out1 kd msg sp out2}
   simp only [e2]
 
 theorem Runs.cast {ip stk mem out ip' stk' mem' out' ip''}
-    (h : Runs code lim s fn rest mp ip stk mem out ip' stk' mem' out') (e : ip' = ip'') :
-    Runs code lim s fn rest mp ip stk mem out ip'' stk' mem' out' := e ▸ h
+    (h : Runs fr code lim s fn rest mp ip stk mem out ip' stk' mem' out') (e : ip' = ip'') :
+    Runs fr code lim s fn rest mp ip stk mem out ip'' stk' mem' out' := e ▸ h
 
-/-- Runs of the single-activation lemmas (`RunsTo` over the base state) are `Runs`. -/
-theorem Runs.of_runsTo {ip stk mem out ip' stk' mem'}
-    (h : RunsTo code lim (baseOf s fn rest mp out) ip stk mem ip' stk' mem') :
-    Runs code lim s fn rest mp ip stk mem out ip' stk' mem' out := fun k => by
-  obtain ⟨k', e⟩ := h k
+/-- Runs of the single-activation lemmas (`RunsTo` over the base state) are `Runs`; the iterator
+table is untouched. -/
+theorem Runs.of_runsTo {ip stk} {mem : Mem} {out ip' stk'} {cells' : List (Int × Val)}
+    (h : ∀ it, RunsTo code lim (baseOf (withIt s it) fn rest mp out) ip stk mem.cells ip' stk' cells') :
+    Runs fr code lim s fn rest mp ip stk mem out ip' stk' ⟨cells', mem.it⟩ out := fun k => by
+  obtain ⟨k', e⟩ := h mem.it k
   exact ⟨k', execHN_of_execN code lim k' _ _ e⟩
 
-theorem RunsF.of_runsFatal {ip stk mem out kd msg sp}
-    (h : RunsFatal code lim (baseOf s fn rest mp out) ip stk mem kd msg sp) :
+theorem RunsF.of_runsFatal {ip stk} {mem : Mem} {out kd msg sp}
+    (h : ∀ it, RunsFatal code lim (baseOf (withIt s it) fn rest mp out) ip stk mem.cells kd msg sp) :
     RunsF code lim s fn rest mp ip stk mem out kd msg sp out := by
   intro k
-  obtain ⟨k', s', e, h1, _, h3, _⟩ := h k
+  obtain ⟨k', s', e, h1, _, h3, _⟩ := h mem.it k
   exact ⟨k', s', execHN_of_execN_fatal code lim k' _ _ _ _ _ e, h1, h3⟩
 
-theorem Runs.of_exec1 {ip stk mem out ip' stk' mem' out'}
-    (h : ∀ k, exec1 code lim (mkS s (⟨fn, ip⟩ :: rest) mp k stk mem out) =
-      .next (mkS s (⟨fn, ip'⟩ :: rest) mp (k + 1) stk' mem' out')) :
-    Runs code lim s fn rest mp ip stk mem out ip' stk' mem' out' :=
-  fun k => ⟨1, by rw [execHN_one]; exact exec1H_of_next (h k)⟩
+theorem Runs.of_exec1 {ip stk} {mem : Mem} {out ip' stk'} {cells' : List (Int × Val)} {out'}
+    (h : ∀ it k, exec1 code lim (mkS (withIt s it) (⟨fn, ip⟩ :: rest) mp k stk mem.cells out) =
+      .next (mkS (withIt s it) (⟨fn, ip'⟩ :: rest) mp (k + 1) stk' cells' out')) :
+    Runs fr code lim s fn rest mp ip stk mem out ip' stk' ⟨cells', mem.it⟩ out' :=
+  fun k => ⟨1, by rw [execHN_one]; exact exec1H_of_next (h mem.it k)⟩
 end
 
 /-- Memory cells up to `b` are the same. -/
-def MemLe (b : Int) (mem mem' : List (Int × Val)) : Prop := ∀ a, a ≤ b → mem'.lookup a = mem.lookup a
+def CellsLe (b : Int) (mem mem' : List (Int × Val)) : Prop := ∀ a, a ≤ b → mem'.lookup a = mem.lookup a
 
-theorem MemLe.refl (b mem) : MemLe b mem mem := fun _ _ => rfl
-theorem MemLe.trans {b mem mem1 mem2} (h1 : MemLe b mem mem1) (h2 : MemLe b mem1 mem2) : MemLe b mem mem2 :=
+theorem CellsLe.refl (b mem) : CellsLe b mem mem := fun _ _ => rfl
+theorem CellsLe.trans {b mem mem1 mem2} (h1 : CellsLe b mem mem1) (h2 : CellsLe b mem1 mem2) : CellsLe b mem mem2 :=
   fun a ha => (h2 a ha).trans (h1 a ha)
-theorem MemLe.mono {b b' mem mem'} (h : MemLe b mem mem') (hb : b' ≤ b) : MemLe b' mem mem' :=
+theorem CellsLe.mono {b b' mem mem'} (h : CellsLe b mem mem') (hb : b' ≤ b) : CellsLe b' mem mem' :=
   fun a ha => h a (by omega)
-theorem MemLe.set (b : Int) (mem : List (Int × Val)) (a : Int) (v : Val) (h : b < a) :
-    MemLe b mem (memSetL mem a v) := by
+theorem CellsLe.set (b : Int) (mem : List (Int × Val)) (a : Int) (v : Val) (h : b < a) :
+    CellsLe b mem (memSetL mem a v) := by
   intro a' ha'
   rw [lookup_memSet, if_neg (by omega)]
+
+/-- Memory cells up to `b` are the same, and the iterator table developed as `ItR fr` allows. -/
+structure MemLe (fr : Bool) (b : Int) (mem mem' : Mem) : Prop where
+  cells : CellsLe b mem.cells mem'.cells
+  it : ItR fr mem.it mem'.it
+
+theorem MemLe.refl (fr b mem) : MemLe fr b mem mem := ⟨CellsLe.refl _ _, ItR.refl _ _⟩
+theorem MemLe.trans {fr b mem mem1 mem2} (h1 : MemLe fr b mem mem1) (h2 : MemLe fr b mem1 mem2) : MemLe fr b mem mem2 :=
+  ⟨h1.cells.trans h2.cells, h1.it.trans h2.it⟩
+theorem MemLe.mono {fr b b' mem mem'} (h : MemLe fr b mem mem') (hb : b' ≤ b) : MemLe fr b' mem mem' :=
+  ⟨h.cells.mono hb, h.it⟩
+theorem MemLe.set (fr : Bool) (b : Int) (mem : Mem) (a : Int) (v : Val) (h : b < a) :
+    MemLe fr b mem (mem.set a v) := ⟨CellsLe.set _ _ _ _ h, ItR.refl _ _⟩
 
 /-! ## Instructions that change the activation -/
 
@@ -309,5 +382,63 @@ theorem dispatch_mkS (s : VMState) (tfn : String) (tl : Nat) (hmp : Int) (hs : L
     simp only [List.length_append]; omega
   simp only [h1, h2, List.drop_left]
   rfl
+
+/-! ## The same steps on `mkSI` states -/
+
+theorem withH_withIt (s : VMState) (hs : List Handler) (it : ItSt) : withIt (withH s hs) it = withH (withIt s it) hs := rfl
+
+theorem mkSI_withH (s : VMState) (hs : List Handler) (calls : List Frame) (mp : Int) (k : Nat) (stk : List SVal)
+    (m : Mem) (out : World) : mkSI (withH s hs) calls mp k stk m out = mkS (withH (withIt s m.it) hs) calls mp k stk m.cells out := rfl
+
+theorem mkSI_eq_reach (s : VMState) (fn : String) (ip : Nat) (rest : List Frame) (mp : Int) (k : Nat)
+    (stk : List SVal) (m : Mem) (out : World) :
+    mkSI s (⟨fn, ip⟩ :: rest) mp k stk m out = reach (baseOf (withIt s m.it) fn rest mp out) ip k stk m.cells := rfl
+
+section ActsI
+variable (code : Code) (lim : Limits) (s : VMState) (fn : String) (ip : Nat) (rest : List Frame) (mp : Int)
+variable (k : Nat) (stk : List SVal) (mem : Mem) (out : World) (c : List (RInstr × Span))
+variable (hf : findCode code fn = some c)
+include hf
+
+theorem mkSI_callImm (g : String) (sp : Span) (hx : c[ip]? = some (.callImm g, sp)) :
+    exec1 code lim (mkSI s (⟨fn, ip⟩ :: rest) mp k stk mem out) =
+      .next (mkSI s (⟨g, 0⟩ :: ⟨fn, ip + 1⟩ :: rest) mp (k + 1) stk mem out) :=
+  mkS_callImm code lim (withIt s mem.it) fn ip rest mp k stk mem.cells out c hf g sp hx
+
+theorem mkSI_ret (sp : Span) (hx : c[ip]? = some (.ret, sp)) :
+    exec1 code lim (mkSI s (⟨fn, ip⟩ :: rest) mp k stk mem out) = .next (mkSI s rest mp (k + 1) stk mem out) :=
+  mkS_ret code lim (withIt s mem.it) fn ip rest mp k stk mem.cells out c hf sp hx
+
+theorem mkSI_addMp (n : Int) (sp : Span) (hx : c[ip]? = some (.addMp n, sp)) (hlim : mp + n < (lim.memory : Int)) :
+    exec1 code lim (mkSI s (⟨fn, ip⟩ :: rest) mp k stk mem out) =
+      .next (mkSI s (⟨fn, ip + 1⟩ :: rest) (mp + n) (k + 1) stk mem out) :=
+  mkS_addMp code lim (withIt s mem.it) fn ip rest mp k stk mem.cells out c hf n sp hx hlim
+
+theorem mkSI_setTry (tfn : String) (l : Nat) (sp : Span) (hx : c[ip]? = some (.setTry tfn l, sp)) :
+    exec1 code lim (mkSI s (⟨fn, ip⟩ :: rest) mp k stk mem out) =
+      .next (mkSI (withH s (⟨⟨tfn, l⟩, rest.length + 1, stk.length, mp⟩ :: s.handlers)) (⟨fn, ip + 1⟩ :: rest) mp
+        (k + 1) stk mem out) :=
+  mkS_setTry code lim (withIt s mem.it) fn ip rest mp k stk mem.cells out c hf tfn l sp hx
+
+theorem mkSI_popTry (sp : Span) (h : Handler) (hs : List Handler) (hx : c[ip]? = some (.popTry, sp)) :
+    exec1 code lim (mkSI (withH s (h :: hs)) (⟨fn, ip⟩ :: rest) mp k stk mem out) =
+      .next (mkSI (withH s hs) (⟨fn, ip + 1⟩ :: rest) mp (k + 1) stk mem out) :=
+  mkS_popTry code lim (withIt s mem.it) fn ip rest mp k stk mem.cells out c hf sp h hs hx
+
+theorem mkSI_throw (sp : Span) (v : Val) (o : Option Org) (d : String)
+    (hx : c[ip]? = some (.throw, sp)) (hd : display out.heap 1000000 v = some d) :
+    exec1 code lim (mkSI s (⟨fn, ip⟩ :: rest) mp k (⟨v, o⟩ :: stk) mem out) =
+      .intr (.throw d sp) (mkSI s (⟨fn, ip + 1⟩ :: rest) mp (k + 1) stk mem out) :=
+  mkS_throw code lim (withIt s mem.it) fn ip rest mp k stk mem.cells out c hf sp v o d hx hd
+end ActsI
+
+theorem dispatch_mkSI (s : VMState) (tfn : String) (tl : Nat) (hmp : Int) (hs : List Handler)
+    (frames' : List Frame) (f : Frame) (rest : List Frame) (mp' : Int) (K : Nat) (xs stk : List SVal)
+    (mem' : Mem) (w' : World) (msg : String) (tsp : Span) :
+    dispatch msg tsp (mkSI (withH s (⟨⟨tfn, tl⟩, rest.length + 1, stk.length, hmp⟩ :: hs)) (frames' ++ f :: rest) mp' K
+        (xs ++ stk) mem' w') =
+      .next (mkSI (withH s (⟨⟨tfn, tl⟩, rest.length + 1, stk.length, hmp⟩ :: hs)) (⟨tfn, tl⟩ :: rest) hmp K
+        (⟨.ref w'.heap.size, none⟩ :: stk) mem' ⟨w'.heap.push (errCell msg tsp), w'.out⟩) :=
+  dispatch_mkS (withIt s mem'.it) tfn tl hmp hs frames' f rest mp' K xs stk mem'.cells w' msg tsp
 
 end HmsProofs.Sim
